@@ -33,10 +33,12 @@ VARIABLES l,        \* next trace line
           mustErr,  \* calls that sent a protocol-violating request
           excused,  \* calls cancelled by the driver or in mustErr
           held,     \* calls whose stream is currently blocked by the driver (their loop cannot run)
+          outst,    \* [Calls -> [on, n, v]] the last message the call submitted in the epoch v announced to it, not yet acked / cleared
           bad       \* set of <<property, what, call>>
-vars == <<l, bi, live, ann, lann, subm, acks, clears, dlv, replaced, mustErr, excused, held, bad>>
+vars == <<l, bi, live, ann, lann, subm, acks, clears, dlv, replaced, mustErr, excused, held, outst, bad>>
 
 NoAnn == [t |-> "none", v |-> 0]
+NoOut == [on |-> FALSE, n |-> 0, v |-> 0]
 Fresh ==
   /\ live = [c \in Calls \cup LCalls |-> "idle"]
   /\ ann = [c \in Calls |-> NoAnn]
@@ -45,6 +47,7 @@ Fresh ==
   /\ acks = {} /\ clears = {}
   /\ dlv = [c \in Calls |-> {}]
   /\ replaced = {} /\ mustErr = {} /\ excused = {} /\ held = {}
+  /\ outst = [c \in Calls |-> NoOut]
 
 Init == l = 1 /\ bi = -1 /\ bad = {} /\ Fresh
 
@@ -62,6 +65,7 @@ Reset ==
   /\ subm' = <<>> /\ acks' = {} /\ clears' = {}
   /\ dlv' = [c \in Calls |-> {}]
   /\ replaced' = {} /\ mustErr' = {} /\ excused' = {} /\ held' = {}
+  /\ outst' = [c \in Calls |-> NoOut]
   /\ UNCHANGED bad
 
 Reg ==
@@ -76,26 +80,26 @@ Reg ==
           /\ excused' = excused \cup {c}
           /\ UNCHANGED replaced
   /\ l' = l + 1
-  /\ UNCHANGED <<bi, ann, lann, subm, acks, clears, dlv, held, bad>>
+  /\ UNCHANGED <<bi, ann, lann, subm, acks, clears, dlv, held, outst, bad>>
 
 LReg ==
   /\ Is("lreg")
   /\ live' = [live EXCEPT ![Ev.c] = "run"]
   /\ replaced' = replaced \cup {x \in LCalls : x # Ev.c /\ live[x] = "run"}
   /\ l' = l + 1
-  /\ UNCHANGED <<bi, ann, lann, subm, acks, clears, dlv, mustErr, excused, held, bad>>
+  /\ UNCHANGED <<bi, ann, lann, subm, acks, clears, dlv, mustErr, excused, held, outst, bad>>
 
 Cancel ==
   /\ (Is("cancel") \/ Is("lcancel"))
   /\ excused' = excused \cup {Ev.c}
   /\ l' = l + 1
-  /\ UNCHANGED <<bi, live, ann, lann, subm, acks, clears, dlv, replaced, mustErr, held, bad>>
+  /\ UNCHANGED <<bi, live, ann, lann, subm, acks, clears, dlv, replaced, mustErr, held, outst, bad>>
 
 HoldRelease ==
   /\ (Is("hold") \/ Is("release"))
   /\ held' = IF Ev.e = "hold" THEN held \cup {Ev.c} ELSE held \ {Ev.c}
   /\ l' = l + 1
-  /\ UNCHANGED <<bi, live, ann, lann, subm, acks, clears, dlv, replaced, mustErr, excused, bad>>
+  /\ UNCHANGED <<bi, live, ann, lann, subm, acks, clears, dlv, replaced, mustErr, excused, outst, bad>>
 
 Send ==
   /\ Is("send")
@@ -103,6 +107,9 @@ Send ==
   /\ IF Ev.sig # "ok" \/ Ev.rel = "future"
      THEN mustErr' = mustErr \cup {Ev.c} /\ excused' = excused \cup {Ev.c}
      ELSE UNCHANGED <<mustErr, excused>>
+  \* a well-formed message stamped with the epoch announced to the sender is in flight until it is acked, cleared or superseded
+  /\ outst' = IF Ev.sig = "ok" /\ Ev.rel = "cur" /\ ann[Ev.c] = [t |-> "opened", v |-> Ev.st]
+               THEN [outst EXCEPT ![Ev.c] = [on |-> TRUE, n |-> Ev.n, v |-> Ev.st]] ELSE outst
   /\ l' = l + 1
   /\ UNCHANGED <<bi, live, ann, lann, acks, clears, dlv, replaced, held, bad>>
 
@@ -115,6 +122,7 @@ AckClear ==
   /\ IF Ev.rel = "future"
      THEN mustErr' = mustErr \cup {Ev.c} /\ excused' = excused \cup {Ev.c}
      ELSE UNCHANGED <<mustErr, excused>>
+  /\ outst' = IF Ev.e = "clear" /\ outst[Ev.c].on /\ outst[Ev.c].n = Ev.n THEN [outst EXCEPT ![Ev.c] = NoOut] ELSE outst
   /\ l' = l + 1
   /\ UNCHANGED <<bi, live, ann, lann, subm, dlv, replaced, held, bad>>
 
@@ -150,7 +158,10 @@ Q ==
   /\ Is("q")
   /\ LET outs == Ev.outs  rets == Ev.rets  snap == Ev.snap
          \* deliveries of this window count for acks observed in the same window (cross-call order inside a window is unknown)
-         dlvAll == [c \in Calls |-> dlv[c] \cup {outs[c][i].v : i \in {j \in 1..Len(outs[c]) : outs[c][j].t = "recv"}}]
+         \* ... and so does a message the relay has already handed to the partner's stream while the driver holds that stream back
+         \* (transport back-pressure): a partner acking it cannot be told apart from one that read it
+         dlvAll == [c \in Calls |-> dlv[c] \cup {outs[c][i].v : i \in {j \in 1..Len(outs[c]) : outs[c][j].t = "recv"}}
+                                            \cup (IF Ev.parked[c] # 0 THEN {Ev.parked[c]} ELSE {})]
          w == [c \in Calls |-> Walk(c, [ann |-> ann[c], dlv |-> dlv[c], bad |-> {}], outs[c], 1, dlvAll)]
          lw == [x \in LCalls |-> LWalk(lann[x], outs[x], 1)]
          live2 == [c \in Calls \cup LCalls |-> IF rets[c] # "" THEN "done" ELSE live[c]]
@@ -175,13 +186,23 @@ Q ==
                      c \in {x \in LCalls : running(x) /\ free(x) /\ \E y \in LCalls : y # x /\ running(y) /\ free(y)}}
          bWant == {<<"C24", "listener's announced set differs from the peers holding an open session request", x>> :
                      x \in {y \in LCalls : running(y) /\ free(y) /\ lw[y] # {Src(c) : c \in {z \in Calls : running(z) /\ Dst(z) = LPeer(y)}}}}
+         \* the message a call has in flight: still outstanding after this window?
+         gotAckClr(c) == \E i \in 1..Len(outs[c]) : outs[c][i].t \in {"ack", "clear"} /\ outs[c][i].v = outst[c].n
+         out2 == [c \in Calls |-> IF outst[c].on /\ running(c) /\ ~gotAckClr(c) /\ w[c].ann = [t |-> "opened", v |-> outst[c].v]
+                                   THEN outst[c] ELSE NoOut]
+         own(c) == IF IsA(c) THEN sess(c).a ELSE sess(c).b
+         partner(c) == IF IsA(c) THEN sess(c).b ELSE sess(c).a
+         bLost == {<<"C22", "a message in flight in the epoch announced to its sender vanished from the relay without the sender being told", c>> :
+                      c \in {x \in Calls : out2[x].on /\ free(x) /\ (\A y \in Calls : (Reverse(y, x) /\ running(y)) => free(y))
+                                           /\ ~(partner(x).recv = out2[x].n \/ partner(x).sent = out2[x].n \/ own(x).acked = out2[x].n \/ own(x).clear = out2[x].n)}}
          bLeft == IF (\A c \in Calls \cup LCalls : ~running(c)) /\ (snap.nsess # 0 \/ snap.npeers # 0)
                   THEN {<<"C25", "relay keeps state after all calls ended", "-">>} ELSE {}
      IN /\ ann' = [c \in Calls |-> w[c].ann]
-        /\ dlv' = [c \in Calls |-> w[c].dlv]
+        /\ dlv' = [c \in Calls |-> w[c].dlv \cup (IF Ev.parked[c] # 0 THEN {Ev.parked[c]} ELSE {})]
         /\ lann' = lw
         /\ live' = live2
-        /\ bad' = bad \cup bWalk \cup bRepl \cup bErr \cup bAnn \cup bOne \cup bWant \cup bLeft
+        /\ outst' = out2
+        /\ bad' = bad \cup bWalk \cup bRepl \cup bErr \cup bAnn \cup bOne \cup bWant \cup bLeft \cup bLost
   /\ l' = l + 1
   /\ UNCHANGED <<bi, subm, acks, clears, replaced, mustErr, excused, held>>
 
